@@ -27,23 +27,23 @@ func (r Result) String() string { return [...]string{"sat", "unsat", "unknown"}[
 // executor (push per conjunct) so that consecutive queries on a DFS only
 // transmit the difference.
 type Solver struct {
-	Name     string
-	cmd      *exec.Cmd
-	in       io.WriteCloser
-	w        *bufio.Writer
-	out      *bufio.Reader
-	declared map[string]bool
-	stack    []*sym.Term
-	Queries  int
-	Errors   int
-	Time     time.Duration
-	IOTime   time.Duration
-	sinceRestart int
+	Name          string
+	cmd           *exec.Cmd
+	in            io.WriteCloser
+	w             *bufio.Writer
+	out           *bufio.Reader
+	declared      map[string]bool
+	stack         []*sym.Term
+	Queries       int
+	Errors        int
+	Time          time.Duration
+	IOTime        time.Duration
+	sinceRestart  int
 	FeasTimeoutMs int
 	Fallbacks     int
-	Restarts     int
-	Log      io.Writer // optional transcript
-	TimeoutS int
+	Restarts      int
+	Log           io.Writer // optional transcript
+	TimeoutS      int
 }
 
 func argv(name string, timeoutS int) []string {
